@@ -143,6 +143,84 @@ var c13MkTexts = []string{
 	"t01:\nt02:\nt03:\nt04:\nt05:\nt06:\nt07:\nt08:\nt09:\nt10:\nt11:\nt12:\nt13:\n",
 }
 
+// c13Histories: the boosts of a directory are a function of its listing, whatever was analysed before
+// in the same process and whatever the earlier callers did with the maps they were given. For every
+// ordered pair (A, B) of single-ecosystem and mixed directories: analyse A, scribble over the map it
+// returned, analyse B; B's boosts must be the same after every A.
+func c13Histories(c *lib.Ctx, dir string) {
+	var cases []c13Case
+	for mi := range c13MkTexts {
+		cases = append(cases, c13Case{Kind: "dir", Files: []string{"Makefile"}, Mk: mi})
+	}
+	for pi := range c13PkgTexts {
+		cases = append(cases, c13Case{Kind: "dir", Files: []string{"package.json"}, Pkg: pi})
+	}
+	cases = append(cases, c13Case{Kind: "dir", Files: []string{".git", "Makefile"}, Mk: 1}, c13Case{Kind: "dir", Files: []string{"go.mod"}},
+		c13Case{Kind: "dir", Files: []string{"package.json", "Makefile"}, Pkg: 1, Mk: 1}, c13Case{Kind: "dir", Files: []string{"notes.txt"}})
+	boosts := func(cs c13Case, scribble bool) (out string) {
+		defer func() {
+			if r := recover(); r != nil {
+				out = fmt.Sprintf("panic: %v", r)
+			}
+		}()
+		if !c13WriteDir(dir, cs) {
+			return "err"
+		}
+		ctx, _ := wctx.NewAnalyzer().AnalyzeDirectory(dir)
+		m := ctx.GetContextBoosts()
+		j, _ := json.Marshal(m)
+		if scribble && m != nil {
+			for k := range m {
+				m[k] = 7
+			}
+			m["zzjunk"] = 9
+		}
+		return string(j)
+	}
+	for bi, b := range cases {
+		if !c.Mine(int64(bi)) {
+			continue
+		}
+		ref, refAfter := "", c13Case{}
+		for _, a := range cases {
+			boosts(a, true)
+			got := boosts(b, false)
+			c.Rep.Evaluations += 2
+			c.Count("analysis_histories", 1)
+			if ref == "" {
+				ref, refAfter = got, a
+				continue
+			}
+			if got != ref {
+				c.Violate(lib.Violation{Key: "boosts-history-dependent", What: fmt.Sprintf("the boosts of listing %v (package.json %d, Makefile %d) depend on what was analysed before it in the same process: after %v (pkg %d, mk %d) they differ from those after %v (pkg %d, mk %d)",
+					b.Files, b.Pkg, b.Mk, a.Files, a.Pkg, a.Mk, refAfter.Files, refAfter.Pkg, refAfter.Mk), Case: c13Case{Kind: "history", Files: b.Files, Pkg: b.Pkg, Mk: b.Mk}, Observed: got, Expected: ref})
+				break
+			}
+		}
+	}
+}
+
+func c13WriteDir(dir string, cs c13Case) bool {
+	os.RemoveAll(dir)
+	if err := os.MkdirAll(dir, 0o755); err != nil {
+		return false
+	}
+	for _, f := range cs.Files {
+		p := filepath.Join(dir, f)
+		switch f {
+		case ".git", "node_modules":
+			os.Mkdir(p, 0o755)
+		case "package.json":
+			os.WriteFile(p, []byte(c13PkgTexts[cs.Pkg]), 0o644)
+		case "Makefile", "makefile":
+			os.WriteFile(p, []byte(c13MkTexts[cs.Mk]), 0o644)
+		default:
+			os.WriteFile(p, []byte("x"), 0o644)
+		}
+	}
+	return true
+}
+
 func c13Analyze(dir string, cs c13Case) (*lib.Violation, string) {
 	os.RemoveAll(dir)
 	if err := os.MkdirAll(dir, 0o755); err != nil {
@@ -379,7 +457,30 @@ func c13Run(c *lib.Ctx) {
 			listings = append(listings, l)
 		}
 	}
+	// broad queries on a database of thousands of entries: a boost must not decide which entries are candidates
+	if c.Mine(11) {
+		wide := dbSpec{Special: "wide3100"}
+		wdb := wide.build(c)
+		for _, q := range []string{"alpha beta", "beta alpha gamma", "gamma entry", "alpha"} {
+			for _, bm := range []map[string]float64{{"alpha": 3}, {"beta": 3}, {"gamma": 2, "alpha": 1.3}, {"entry": 3}} {
+				for _, nlp := range []bool{false, true} {
+					cs := c13Case{Kind: "search", DB: wide, Query: strconv.Quote(q), NLP: nlp, Boosts: bm}
+					v, _ := c13Search(wdb, cs)
+					c.Rep.Evaluations += 2
+					c.Count("wide_database_pairs", 1)
+					if v != nil {
+						v.Observed, v.Expected = nil, nil
+						if len(v.What) > 600 {
+							v.What = v.What[:600] + "..."
+						}
+						c.Violate(*v)
+					}
+				}
+			}
+		}
+	}
 	dir := filepath.Join(c.Scratch, "proj")
+	c13Histories(c, filepath.Join(c.Scratch, "projh"))
 	for li, l := range listings {
 		if !c.Mine(int64(li)) {
 			continue
@@ -443,7 +544,7 @@ func popcount(x int) int {
 func init() {
 	lib.Register(&lib.Check{
 		ID: "C13", Level: "model_checking",
-		Rule:      "(search) databases = 40-entry, 12-identical + all subsets of <=2 (quick) / <=3 (thorough) of 13 pool entries; queries = 22 one-word + 56 two-word + three 11-12-word queries (each also with TopTermsCap 5 and 6, so that the term trimming is in play) + empty; boost maps = 15 words x factors {1,1.3,2,3}, all 105 two-word maps with factors {2,3}, a zero, a negative and an empty map; NLP off/on; each as a pair (without, with boosts) at Limit>=N: same candidate set, boosted-word entries never lower, other entries bit-identical. (analyzer) every listing of <=2 names from 51 marker / non-marker names + every listing of 3 names two of which are markers of the same project type (thorough: + all subsets of >=3 of 18 representative markers) x 9 package.json x 9 Makefile texts (one of each with 13 scripts / targets) on a real tmpfs directory: determinism, no duplicate type, generic exactly when nothing recognised, no recognised type missed, finite boosts >=1, GetContextBoosts invariant under forced map orders. non-trivial = pairs whose scores differ / non-generic directories",
+		Rule:      "(search) databases = 40-entry, 12-identical, a 3,100-entry database whose two-word queries have posting lists of thousands of entries (4 queries x 4 boost maps) + all subsets of <=2 (quick) / <=3 (thorough) of 13 pool entries; queries = 22 one-word + 56 two-word + three 11-12-word queries (each also with TopTermsCap 5 and 6, so that the term trimming is in play) + empty; boost maps = 15 words x factors {1,1.3,2,3}, all 105 two-word maps with factors {2,3}, a zero, a negative and an empty map; NLP off/on; each as a pair (without, with boosts) at Limit>=N: same candidate set, boosted-word entries never lower, other entries bit-identical. (analyzer) every listing of <=2 names from 51 marker / non-marker names + every listing of 3 names two of which are markers of the same project type (thorough: + all subsets of >=3 of 18 representative markers) x 9 package.json x 9 Makefile texts (one of each with 13 scripts / targets) on a real tmpfs directory: determinism, no duplicate type, generic exactly when nothing recognised, no recognised type missed, finite boosts >=1, GetContextBoosts invariant under forced map orders; and every ordered pair (A, B) of 22 single-ecosystem / mixed directories analysed one after the other in one process, the map returned for A overwritten by its caller: B's boosts are the same after every A. non-trivial = pairs whose scores differ / non-generic directories",
 		Assume:    []string{"map order pinned in searches; explored (deviation bound 1, reverse and rotate) in GetContextBoosts", "marker table copied from the analyzer's documented file names"},
 		QuickSecs: 240, ThorSecs: 1800,
 		Run: c13Run,
@@ -455,6 +556,18 @@ func init() {
 				return nil
 			}
 			var v *lib.Violation
+			if cs.Kind == "history" {
+				cc := *c
+				cc.Rep = &lib.Report{Counters: map[string]int64{}}
+				c13Histories(&cc, filepath.Join(c.Scratch, "projh"))
+				var out []lib.Violation
+				for _, hv := range cc.Rep.Violations {
+					if hc, ok := hv.Case.(c13Case); ok && fmt.Sprint(hc.Files) == fmt.Sprint(cs.Files) && hc.Pkg == cs.Pkg && hc.Mk == cs.Mk {
+						out = append(out, hv)
+					}
+				}
+				return out
+			}
 			if cs.Kind == "dir" {
 				v, _ = c13Analyze(filepath.Join(c.Scratch, "proj"), cs)
 			} else {
